@@ -34,6 +34,8 @@ impl<'a> SplitStrv<'a> {
 
         // skip initial whitespace
         self.parse_until_none_of(separators);
+        // a word starts at the first non-separator character, even if unquoting leaves nothing of it (`""`)
+        let word_started = self.c.is_some();
 
         let mut quote: Option<char> = None; // None or Some('\'') or Some('"')
         while let Some(c) = self.c {
@@ -57,10 +59,10 @@ impl<'a> SplitStrv<'a> {
             self.bump();
         }
 
-        if word.is_empty() {
-            None
-        } else {
+        if word_started {
             Some(word)
+        } else {
+            None
         }
     }
 
@@ -119,6 +121,8 @@ impl<'a> SplitWord<'a> {
 
         // skip initial whitespace
         self.parse_until_none_of(separators);
+        // a word starts at the first non-separator character, even if unquoting leaves nothing of it (`""`)
+        let word_started = self.c.is_some();
 
         let mut quote: Option<char> = None; // None or Some('\'') or Some('"')
         let mut backslash = false; // whether we've just seen a backslash
@@ -163,10 +167,10 @@ impl<'a> SplitWord<'a> {
         //     // otherwise we'd have to push it onto `word`
         // }
 
-        if word.is_empty() {
-            None
-        } else {
+        if word_started {
             Some(word)
+        } else {
+            None
         }
     }
 
